@@ -82,10 +82,32 @@ Fields(t) ==
          day |-> dm.day, tid |-> dm.ms]
 
 -----------------------------------------------------------------------------
-(* 15.9.1.11 *)
-MakeTime(hour, min, sec, ms) ==
+(* Deviation D12m / D12n: otto hands the millisecond field to Go's time.Date *)
+(* as an int64 count of nanoseconds, ms * 10^6 computed modulo 2^64; the     *)
+(* field then contributes floor(wrapped / 10^6) milliseconds.  The identity  *)
+(* for |ms| * 10^6 < 2^63.  x: an integral finite Num, |x| < 2^63.           *)
+P2_63 == BnShl(<<1>>, 63)
+P2_64 == BnShl(<<1>>, 64)
+WrapMs(x) ==
+    IF IsZero(x) THEN x
+    ELSE LET P == BnMul(BnShl(MantOf(x), ExpOf(x)), BnFromInt(1000000))
+         IN  IF BnCmp(P, P2_63) < 0 THEN x
+             ELSE LET low == BnLowBits(P, 64)
+                      u   == IF IsNeg(x) /\ low # <<>> THEN BnSub(P2_64, low) ELSE low     \* two's complement bit pattern
+                      neg == BnCmp(u, P2_63) >= 0
+                      mag == IF neg THEN BnSub(P2_64, u) ELSE u
+                      dm  == BnDivMod(mag, BnFromInt(1000000))
+                      q   == IF neg /\ dm.rem # <<>> THEN BnAdd(dm.q, <<1>>) ELSE dm.q       \* floor
+                  IN  Canon(neg, q, 0)
+
+(* 15.9.1.11.  site: "fields" = newDateTime (Date.UTC, constructor),         *)
+(* "set" = ecmaTime.goTime (every setter), "none" = no deviation             *)
+MakeTime(hour, min, sec, ms, site) ==
     IF ~(IsFinite(hour) /\ IsFinite(min) /\ IsFinite(sec) /\ IsFinite(ms)) THEN NaN
-    ELSE LET h == ToIntegerN(hour)  m == ToIntegerN(min)  s == ToIntegerN(sec)  milli == ToIntegerN(ms)
+    ELSE LET h == ToIntegerN(hour)  m == ToIntegerN(min)  s == ToIntegerN(sec)
+             milli == IF (site = "fields" /\ D("D12m_millisecond_field_overflows_int64_nanoseconds_in_fields"))
+                         \/ (site = "set" /\ D("D12n_millisecond_field_overflows_int64_nanoseconds_in_setters"))
+                      THEN WrapMs(ToIntegerN(ms)) ELSE ToIntegerN(ms)
          IN  NumAdd(NumAdd(NumAdd(NumMul(h, I(MsPerHour)), NumMul(m, I(MsPerMinute))), NumMul(s, I(MsPerSecond))), milli)
 
 (* 15.9.1.12.  Step 7 ("find t ...; if this is not possible because some     *)
@@ -93,7 +115,7 @@ MakeTime(hour, min, sec, ms) ==
 (* up to YearLimit; no time value has a year beyond +-275760, and beyond     *)
 (* YearLimit no date argument considered by the checks can bring the result  *)
 (* back into range, so the choice is not observable through TimeClip.        *)
-YearLimit == 2900000
+YearLimit == 5000000
 MakeDay(year, month, date) ==
     IF ~(IsFinite(year) /\ IsFinite(month) /\ IsFinite(date)) THEN NaN
     ELSE LET y == ToIntegerN(year)  m == ToIntegerN(month)  dt == ToIntegerN(date)
@@ -108,6 +130,38 @@ MakeDay(year, month, date) ==
 MakeDate(day, time) ==
     IF ~(IsFinite(day) /\ IsFinite(time)) THEN NaN
     ELSE NumAdd(NumMul(day, I(MsPerDay)), time)
+
+(* MakeDate(day, MakeTime(hour, min, sec, ms)), the composition every caller *)
+(* uses.  Deviation D12p / D12q: otto hands the integer fields to Go's       *)
+(* time.Date, which composes them in exact integer arithmetic; ES5 performs  *)
+(* every + and * in IEEE double arithmetic, so the results differ when an    *)
+(* intermediate value exceeds 2^53 (e.g. 2^32 hours + 1 ms loses the 1 ms).  *)
+SI(x) == [neg |-> IsNeg(x), mag |-> IF IsZero(x) THEN <<>> ELSE BnShl(MantOf(x), ExpOf(x))]    \* an integral finite Num as sign and magnitude
+SAdd(a, b) ==
+    IF a.neg = b.neg THEN [neg |-> a.neg, mag |-> BnAdd(a.mag, b.mag)]
+    ELSE LET c == BnCmp(a.mag, b.mag)
+         IN  IF c = 0 THEN [neg |-> FALSE, mag |-> <<>>]
+             ELSE IF c > 0 THEN [neg |-> a.neg, mag |-> BnSub(a.mag, b.mag)]
+             ELSE [neg |-> b.neg, mag |-> BnSub(b.mag, a.mag)]
+SMul(a, k) == [neg |-> a.neg, mag |-> BnMul(a.mag, BnFromInt(k))]
+(* when every partial sum stays below 2^53 both ways of computing agree (and the exact one is not evaluated) *)
+Tame(day, hour, min, sec, ms) ==
+    /\ SmallInt(day) /\ Abs(IntOf(day)) <= 100000000
+    /\ SmallInt(ToIntegerN(hour)) /\ Abs(IntOf(ToIntegerN(hour))) < 1048576
+    /\ SmallInt(ToIntegerN(min)) /\ SmallInt(ToIntegerN(sec)) /\ SmallInt(ToIntegerN(ms))
+Compose(day, hour, min, sec, ms, site) ==
+    IF ((site = "fields" /\ D("D12p_exact_integer_composition_in_fields"))
+        \/ (site = "set" /\ D("D12q_exact_integer_composition_in_setters")))
+       /\ IsFinite(day) /\ IsFinite(hour) /\ IsFinite(min) /\ IsFinite(sec) /\ IsFinite(ms)
+       /\ ~Tame(day, hour, min, sec, ms)
+    THEN LET msi   == ToIntegerN(ms)
+             milli == IF (site = "fields" /\ D("D12m_millisecond_field_overflows_int64_nanoseconds_in_fields"))
+                         \/ (site = "set" /\ D("D12n_millisecond_field_overflows_int64_nanoseconds_in_setters"))
+                      THEN WrapMs(msi) ELSE msi
+             sum   == SAdd(SAdd(SMul(SI(day), MsPerDay), SMul(SI(ToIntegerN(hour)), MsPerHour)),
+                           SAdd(SAdd(SMul(SI(ToIntegerN(min)), MsPerMinute), SMul(SI(ToIntegerN(sec)), MsPerSecond)), SI(milli)))
+         IN  RoundD(sum.neg, sum.mag, 0)          \* float64(time.UnixMilli())
+    ELSE MakeDate(day, MakeTime(hour, min, sec, ms, site))
 
 (* 15.9.1.14.  Step 3 leaves the sign of a zero result to the implementation *)
 (* ("ToInteger(time) or ToInteger(time) + (+0)"); the specification takes +0 *)
@@ -194,7 +248,7 @@ ParseISO(s) ==
                                                      /\ (tm.h <= 23 \/ (tm.h = 24 /\ tm.mi = 0 /\ tm.sec = 0 /\ tm.ms = 0))
                                                      /\ tz.legal
                                             day  == MakeDay(NInt(yr.y), I(md.mo - 1), I(md.d))
-                                            time == MakeTime(I(tm.h), I(tm.mi), I(tm.sec), I(tm.ms))
+                                            time == MakeTime(I(tm.h), I(tm.mi), I(tm.sec), I(tm.ms), "none")
                                             t    == NumSub(MakeDate(day, time), NInt(tz.off * MsPerMinute))
                                         IN  [ok |-> TRUE, exp |-> yr.exp, h24 |-> tm.h = 24,
                                              t |-> IF legal THEN TimeClip(t, "parse") ELSE NaN]
@@ -218,8 +272,7 @@ FromFields(a) ==
         yr == IF D("D12a_two_digit_year_tested_before_tointeger")
               THEN (IF NumLe(I(0), y) /\ NumLe(y, I(99)) THEN NumAdd(I(1900), y) ELSE y)     \* newDateTime
               ELSE (IF ~IsNaN(y) /\ NumLe(I(0), yi) /\ NumLe(yi, I(99)) THEN NumAdd(I(1900), yi) ELSE y)   \* step 8
-    IN  MakeDate(MakeDay(yr, a[2], Arg(a, 3, I(1))),
-                 MakeTime(Arg(a, 4, I(0)), Arg(a, 5, I(0)), Arg(a, 6, I(0)), Arg(a, 7, I(0))))
+    IN  Compose(MakeDay(yr, a[2], Arg(a, 3, I(1))), Arg(a, 4, I(0)), Arg(a, 5, I(0)), Arg(a, 6, I(0)), Arg(a, 7, I(0)), "fields")
 
 DateUTC(a)  == TimeClip(FromFields(a), "utc")          \* 15.9.4.3
 CtorFields(a) == TimeClip(FromFields(a), "set")        \* 15.9.3.1 step 11: TimeClip(UTC(finalDate)), UTC(t) = t
@@ -242,13 +295,13 @@ S_InvalidDate == <<73, 110, 118, 97, 108, 105, 100, 32, 68, 97, 116, 101>>      
 (* f = FN(t), the components of the current time value                      *)
 SetTime(f, a) == TimeClip(Arg(a, 1, NaN), "set")                                   \* 15.9.5.27
 SetMs(f, a) ==                                                                       \* 15.9.5.28/29
-    TimeClip(MakeDate(f.day, MakeTime(f.h, f.mi, f.s, Arg(a, 1, NaN))), "set")
+    TimeClip(Compose(f.day, f.h, f.mi, f.s, Arg(a, 1, NaN), "set"), "set")
 SetSec(f, a) ==                                                                      \* 15.9.5.30/31
-    TimeClip(MakeDate(f.day, MakeTime(f.h, f.mi, Arg(a, 1, NaN), Arg(a, 2, f.ms))), "set")
+    TimeClip(Compose(f.day, f.h, f.mi, Arg(a, 1, NaN), Arg(a, 2, f.ms), "set"), "set")
 SetMin(f, a) ==                                                                      \* 15.9.5.32/33
-    TimeClip(MakeDate(f.day, MakeTime(f.h, Arg(a, 1, NaN), Arg(a, 2, f.s), Arg(a, 3, f.ms))), "set")
+    TimeClip(Compose(f.day, f.h, Arg(a, 1, NaN), Arg(a, 2, f.s), Arg(a, 3, f.ms), "set"), "set")
 SetHours(f, a) ==                                                                    \* 15.9.5.34/35
-    TimeClip(MakeDate(f.day, MakeTime(Arg(a, 1, NaN), Arg(a, 2, f.mi), Arg(a, 3, f.s), Arg(a, 4, f.ms))), "set")
+    TimeClip(Compose(f.day, Arg(a, 1, NaN), Arg(a, 2, f.mi), Arg(a, 3, f.s), Arg(a, 4, f.ms), "set"), "set")
 SetDate(f, a) ==                                                                     \* 15.9.5.36/37
     TimeClip(MakeDate(MakeDay(f.year, f.month, Arg(a, 1, NaN)), f.tid), "set")
 SetMonth(f, a) ==                                                                    \* 15.9.5.38/39
